@@ -463,3 +463,9 @@ Tuple of (f, g, h) where:
 
     # constant but needed:
     wellformed = property(lambda self: True)
+
+    def _getValid(self):
+        """Return whether the style declarations of the page and of its margin boxes are valid."""
+        return self.style.valid and all(rule.style.valid for rule in self.cssRules)
+
+    valid = property(_getValid, doc='``True`` if all contained declarations are valid')
